@@ -83,9 +83,9 @@ Proof. intros [Hinv Hxo] Hlast Hofft Hlen Hm32.
   { destruct (op_too_long (xlog x) (Offer msg)) eqn:Etl; [right; reflexivity|left].
     unfold op_required, op_len. cbn [op_too_long op_len] in Etl. apply required_half_term; auto. right. lia. }
   inversion T as [Hc | Hc Hl | Hc Hl Htoo | t' cl Htoo Hc Hl Hfit | Htoo Hc Hl Hfit Hn' | Htoo Hc Hl Hfit Hn']; subst x' r.
-  - apply AE_refuse. discriminate.
-  - apply AE_refuse. apply status_not_admin.
-  - apply AE_refuse. discriminate.
+  - apply AE_refuse. reflexivity.
+  - apply AE_refuse. apply status_refusal.
+  - apply AE_refuse. reflexivity.
   - (* accepted *)
     destruct Hreq as [Hreq | Hreq]; [|congruence].
     destruct (xtry_result_inv x n _ _ _ _ _ Hinv Hreq T) as (Hsg & Hl' & _ & Hinv').
@@ -139,16 +139,16 @@ Proof. intros [Hinv Hxo] Hlast Hofft Hlen.
   pose proof (mod3_range n) as Hm3r.
   assert (Hok : C04Proofs.op_ok (xlog x) (Claim len)) by exact Hlen.
   destruct (xpub_step_cases m rv x n Hinv (Claim len) Hok eq_refl) as [(len' & Hd & Hlong & Hst) | T].
-  { rewrite Hst. apply AE_refuse. discriminate. }
+  { rewrite Hst. apply AE_refuse. reflexivity. }
   cbn [xpub_step] in *.
   destruct (xpub_claim m x len) as [x' r] eqn:Eres.
   assert (Hreq : 0 < op_required (xlog x) (Claim len) <= l_tlen (xlog x) / 2 \/ op_too_long (xlog x) (Claim len) = true).
   { destruct (op_too_long (xlog x) (Claim len)) eqn:Etl; [right; reflexivity|left].
     unfold op_required, op_len. cbn [op_too_long] in Etl. apply required_half_term; auto; lia. }
   inversion T as [Hc | Hc Hl | Hc Hl Htoo | t' cl Htoo Hc Hl Hfit | Htoo Hc Hl Hfit Hn' | Htoo Hc Hl Hfit Hn']; subst x' r.
-  - apply AE_refuse. discriminate.
-  - apply AE_refuse. apply status_not_admin.
-  - apply AE_refuse. discriminate.
+  - apply AE_refuse. reflexivity.
+  - apply AE_refuse. apply status_refusal.
+  - apply AE_refuse. reflexivity.
   - (* accepted *)
     destruct Hreq as [Hreq | Hreq]; [|congruence].
     destruct (xtry_result_inv x n _ _ _ _ _ Hinv Hreq T) as (Hsg & Hl' & _ & Hinv').
